@@ -37,22 +37,40 @@ def extras(g):
         ("both", "[x_libdirsize 1]", "[x_generations 3]"),
     ]
 
+PAD = "pad-to-tape-block"      # marker returned by tails(): zeros up to the next multiple of 2048 bytes, filled in once the stream is rendered
 def tails(g, n):
     r = g.rng
     c = r.randrange(9)
     if c <= 2:
+        g.note("tail_none")
         return b""
     if c == 3:
+        g.note("tail_zeros_1_3")
         return bytes(r.choice([1, 2, 3]))
     if c == 4:
-        return bytes((2048 - n) % 2048)               # tape-block padding with zeros
+        # tape-block padding with zeros. (Until 2026-10-02 this was bytes((2048 - n) % 2048) with n = 0 at every call site,
+        # i.e. always empty: the length of the stream is only known after Coq has rendered it, see evaluate.)
+        g.note("tail_tape_pad")
+        return PAD
     if c == 5:
+        g.note("tail_nonzero_garbage")
         return bytes(r.randrange(1, 256) for _ in range(r.choice([1, 2, 3, 4, 5, 8, 31])))   # non-zero garbage
     if c == 6:
+        g.note("tail_more_records")
         return bytes.fromhex("00060002000300040400")      # looks like more records
     if c == 7:
+        g.note("tail_ff")
         return bytes([0xFF] * r.choice([1, 4, 7]))
+    g.note("tail_random")
     return bytes(r.randrange(256) for _ in range(r.randrange(1, 40)))
+
+def mk(kind, lib, tail=b"", pre="[]", post="[]", **kw):
+    """a case; tail = PAD: zeros up to the next multiple of kw['pad_to'] (default 2048) bytes"""
+    c = {"kind": kind, "lib": lib, "pre": pre, "post": post, "tail": b"" if tail is PAD else tail}
+    if tail is PAD:
+        c["pad_to"] = kw.pop("pad_to", 2048)
+    c.update(kw)
+    return c
 
 def gen_cases(chk):
     quick = chk.tier == "quick"
@@ -60,17 +78,17 @@ def gen_cases(chk):
     cases = []
     for _ in range(260 if quick else 10000):
         l = g.lib()
-        cases.append({"kind": "random", "lib": l, "pre": "[]", "post": "[]", "tail": tails(g, 0)})
+        cases.append(mk("random", l, tails(g, 0)))
     for l in subset_libs(g, exhaustive=not quick, sample=8):
-        cases.append({"kind": "subset", "lib": l, "pre": "[]", "post": "[]", "tail": tails(g, 0)})
+        cases.append(mk("subset", l, tails(g, 0)))
     for k in KINDS:
         g.note("full_" + k)
         l = base_lib(b"L", [{"name": b"cell", "dates": [0] * 12, "elems": [g.elem(k, force=set(OPT_FIELDS[k]))]}])
-        cases.append({"kind": "full_" + k, "lib": l, "pre": "[]", "post": "[]", "tail": b""})
+        cases.append(mk("full_" + k, l))
     for name, pre, post in extras(g):
         for _ in range(2 if quick else 20):
             g.note("unsupported_" + name)
-            cases.append({"kind": "unsupported_" + name, "lib": g.lib(), "pre": pre, "post": post, "tail": b""})
+            cases.append(mk("unsupported_" + name, g.lib(), pre=pre, post=post))
     longs = long_libs(g)
     longs = [x for x in longs if not x[0].endswith("65531") and not x[0].endswith("65532") and not x[0].endswith("8192")]
     if quick:
@@ -78,13 +96,42 @@ def gen_cases(chk):
         longs = [x for i, x in enumerate(longs) if i % 3 == k]
     for name, l in longs:
         g.note(name.rsplit("_", 1)[0])
-        cases.append({"kind": name, "lib": l, "pre": "[]", "post": "[]", "tail": b"\0\0"})
-    return cases, g.dist
+        cases.append(mk(name, l, b"\0\0"))
+    # directed families (generator audit 2026-10-02), shared with C01 / C02: optional records holding the value a reader assumes when
+    # they are absent, all STRANS flag combinations, record lengths at the 256 / 32768 boundaries, the same name / element /
+    # attribute twice, white space and control characters in strings, more than 1024 structs / elements
+    for fam, name, l in directed_libs(chk.seed + 2, quick):
+        g.note(fam)
+        cases.append(mk(name, l))
+    # tape-block padding: the stream filled with zeros to a multiple of 2048 / 512 bytes, and whole blocks of zeros after it
+    full = base_lib(b"all", [{"name": b"cell", "dates": list(range(12)), "elems": [g.elem(k, force=set(OPT_FIELDS[k])) for k in KINDS]}])
+    few = [("empty", base_lib(b"e")), ("full", full), ("dup", dup_libs()[0][1])]
+    for nm, l in few:
+        for what, tail, kw in (("block2048", PAD, {"pad_to": 2048}), ("block512", PAD, {"pad_to": 512}), ("zeros2048", bytes(2048), {})):
+            g.note("tape_pad")
+            cases.append(mk("tape_pad_%s_%s" % (what, nm), l, tail, **kw))
+    # the file entry point GdsLibrary::open / load (everything above is read from a byte slice with from_bytes)
+    big = plain_elem("text"); big["string"] = b"b" * 65529 + b"e"
+    fl = [("file_read_full", full, PAD), ("file_read_empty", base_lib(b""), b""), ("file_read_long_text", one_elem_lib(big), b"\0\0")]
+    fl += [("file_read_random", g.lib(), tails(g, 0)) for _ in range(7 if quick else 200)]
+    for nm, l, t in fl:
+        g.note("file_read")
+        cases.append(mk(nm, l, t, file=True))
+    return spread_heavy(cases), g.dist
 
 def evaluate(chk, cases, tag):
     """phase 1: Coq renders the streams; phase 2: impl reads; phase 3: Coq judges"""
-    streams = eval_strings(chk, [capp("hexchunks", capp("c03_stream", Raw(c["pre"]), Raw(c["post"]), to_coq(c["lib"]), cbytes(c["tail"]))) for c in cases], tag + "_render", shard=40)
-    res = harness("c01", [{"op": "read", "bytes": s} for s in streams])
+    streams = eval_strings(chk, [capp("hexchunks", capp("c03_stream", Raw(c["pre"]), Raw(c["post"]), to_coq(c["lib"]), cbytes(c["tail"]))) for c in cases], tag + "_render", shard=28)
+    for i, c in enumerate(cases):
+        if c.get("pad_to"):
+            # tape-block padding: now that the length is known, the tail becomes zeros up to the next multiple of the block size
+            # (the judge below is given the same tail)
+            pad = (-(len(streams[i]) // 2)) % c["pad_to"]
+            c["tail"] = c["tail"] + bytes(pad)
+            c["pad_to"] = None
+            streams[i] += "00" * pad
+    # a stream goes to from_bytes, or (family file_read) into a file that GdsLibrary::load opens
+    res = harness("c01", [{"op": "read_file" if c.get("file") else "read", "bytes": s} for c, s in zip(cases, streams)])
     items, idx = [], []
     out = [None] * len(cases)
     for i, (c, r) in enumerate(zip(cases, res)):
@@ -93,7 +140,7 @@ def evaluate(chk, cases, tag):
             continue
         items.append(capp("c03_check", Raw(c["pre"]), Raw(c["post"]), to_coq(c["lib"]), cbytes(c["tail"]), c_rres(r["r"])))
         idx.append(i)
-    codes = eval_codes(chk, items, tag, shard=40)
+    codes = eval_codes(chk, items, tag, shard=28)
     for i, cde in zip(idx, codes):
         r = res[i]["r"]
         out[i] = (cde, {"stream_len": len(streams[i]) // 2, "stream_head": streams[i][:80], "r": ("ok" if "ok" in r else r)})
@@ -116,13 +163,13 @@ def run(chk, replay=None):
     chk.assumptions += [
         "GdsSpec.v is a faithful transcription of the GDSII stream format manual; the reference encoder pads odd-length strings with exactly one NUL and never pads even-length strings (DESIGN.md section 4)",
         "the reference encoding of a double is gds_spec_encode (C15)",
-        "reading from a byte slice (GdsLibrary::from_bytes); errors compared by GdsError variant",
+        "reading from a byte slice (GdsLibrary::from_bytes), family file_read: from a scratch file through GdsLibrary::load (= open); errors compared by GdsError variant",
     ]
     if not getattr(chk, "model_ok", False):
         return
     if replay:
         obj = json.load(open(replay))["replay"]
-        cases = [{"kind": "replay", "lib": from_json(j["lib"]), "pre": j["pre"], "post": j["post"], "tail": bytes.fromhex(j["tail"])} for j in obj.get("cases", [])]
+        cases = [{"kind": "replay", "lib": from_json(j["lib"]), "pre": j["pre"], "post": j["post"], "tail": bytes.fromhex(j["tail"]), "file": j.get("file", False)} for j in obj.get("cases", [])]
         dist = {}
     else:
         cases, dist = gen_cases(chk)
@@ -131,7 +178,9 @@ def run(chk, replay=None):
     chk.cov["foreign_files"] = fr
     chk.cov["input_distribution"] = dist
     chk.cov["rule"] = ("streams rendered inside Coq by the reference encoder from generated libraries (all element kinds, enumerated optional-record subsets, "
-                       "string classes, arbitrary dates), followed by tails of zero / non-zero bytes; plus streams with each optional library-level record (expected: error); "
+                       "string classes, arbitrary dates, directed libraries: optional records at their default value, STRANS flag combinations, record lengths at 256 / 32768, repeated names / elements / attributes, "
+                       "white space and control characters, more than 1024 items), followed by tails of zero / non-zero bytes incl. zero padding to a 2048- or 512-byte tape block; "
+                       "plus streams with each optional library-level record (expected: error); plus streams read from a file through GdsLibrary::load; "
                        "non-trivial = at least one element; distinct by (library JSON, extras, tail)")
     chk.cov["evaluations"] = len(cases) + len(fr)
     chk.cov["distinct_nontrivial"] = len({(lib_key(c["lib"]), c["pre"], c["post"], c["tail"]) for c in cases if any(s["elems"] for s in c["lib"]["structs"])})
@@ -145,7 +194,7 @@ def run(chk, replay=None):
         elif f["code"] == 1:
             chk.broken.append("correspondence C03: reader model differs from impl on %s" % f["file"])
     def to_replay(c):
-        return {"lib": to_json(c["lib"]), "pre": c["pre"], "post": c["post"], "tail": c["tail"].hex()}
+        return {"lib": to_json(c["lib"]), "pre": c["pre"], "post": c["post"], "tail": c["tail"].hex(), "file": bool(c.get("file"))}
     def shrinker(c, r, cls):
         if lib_size(c["lib"]) >= 5000:
             return c, r
